@@ -1269,10 +1269,14 @@ def optimize_grid(data, model_func, pts, grid,
         # iteration order in brute(). So we have to iterate back over them
         # to produce the proper order to return.
         thetas = numpy.zeros(fout.shape)
+        # With a single free parameter, brute returns a 1-d grid.
+        grid_nd = numpy.asarray(grid)
+        if grid_nd.ndim == 1:
+            grid_nd = grid_nd[numpy.newaxis]
         for indices, temp in numpy.ndenumerate(fout):
             # This is awkward, because we need to access grid[:,indices]
             grid_indices = tuple([slice(None,None,None)] + list(indices))
-            thetas[indices] = _theta_store[tuple(grid[grid_indices])]
+            thetas[indices] = _theta_store[tuple(grid_nd[grid_indices])]
     else:
         xopt = outputs
     xopt = _project_params_up(xopt, fixed_params)
